@@ -594,6 +594,9 @@ def run_source(prog, unit_size=3, max_steps=400):
                 regs[tuple(ops[0]["r"])] = ops[1]["a"]
             elif mn == "array":
                 n = need(rd(ops[0]))
+                if n > 100000:  # a loop that keeps doubling a register: not worth the memory
+                    status = "resource"
+                    break
                 arrays[ops[1]["a"]] = [None] * n
             elif mn == "store":
                 v = need(rd(ops[0]))
@@ -808,8 +811,10 @@ def oracle(prog, unit_size=3):
             return {"what": "assembler rejects a well-formed program", "error": res}
         return None
     src = run_source(prog, unit_size)
+    if src["status"] in ("steps", "resource"):
+        return None
     real = run_real(sub, named_registers(prog), unit_size)
-    if src["status"] == "steps" or real["status"] == "steps":
+    if real["status"] == "steps":
         return None
     diffs = {}
     for k in ("status", "regs", "arrays", "shm_regs", "shm_arrays", "unit"):
